@@ -27,7 +27,9 @@ ASSUMPTIONS = ['subunit (forces --buffer) is not installed and not covered',
 FLOORS = {'tokens_hidden_checked': 1500, 'tokens_shown_checked': 1500,
           'probes_between_tests': 3000, 'probes_in_tests_buffered': 2000,
           'probes_unbuffered': 500, 'multi_event_tests': 200,
-          'class_fixture_events': 300, 'probes_in_layer_subprocess': 300}
+          'class_fixture_events': 300, 'probes_in_layer_subprocess': 300,
+          'interrupts_that_reached_the_caller': 100,
+          'interrupts_that_reached_the_caller_post_mortem': 30}
 BATCH_TIMEOUT = 300
 
 KINDS = ['pass', 'fail', 'error', 'setup_error', 'teardown_error',
@@ -73,6 +75,17 @@ def cases(tier, seed):
         for _k in range(rng.randint(1, 2)):
             seq.insert(rng.randint(0, len(seq)), rng.choice(UNIT_KINDS))
         seqs.append(tuple(seq))
+    # runs that are cut short by a KeyboardInterrupt inside a test (setUp /
+    # body / tearDown), half of them with the post-mortem debugger switched
+    # on (-D, scripted session): "after the run" the streams are the
+    # original objects also then
+    nk = 300 if tier == 'quick' else 3000
+    kb = []
+    for _ in range(nk):
+        seq = [rng.choice(KINDS) for _k in range(rng.randint(0, 3))]
+        seq.append('kbint_' + rng.choice(['setUp', 'body', 'tearDown']))
+        kb.append(tuple(seq))
+    seqs += kb
     out = []
     for i, seq in enumerate(seqs):
         out.append({'idx': i, 'seq': list(seq),
@@ -83,6 +96,9 @@ def cases(tier, seed):
         # the layer in a subprocess (-j 2): what a failing test wrote comes
         # back through the child's stdout
         out[-1]['sub'] = (not out[-1]['cli']) and rng.random() < 0.05
+        if seq[-1].startswith('kbint_'):
+            out[-1].update(cli=False, sub=False, pm=rng.random() < 0.5,
+                           buffer=rng.random() < 0.85)
     return out
 
 
@@ -116,6 +132,16 @@ def run_case(case):
         t = {'name': 'test_%02d' % i, 'kind': kind, 'actions': []}
         if kind in UNIT_KINDS:
             t['kind'] = 'fail' if kind == 'u_fail' else 'pass'
+        if kind.startswith('kbint_'):
+            t['kind'] = 'pass'
+            t['actions'].append({'ph': kind[6:], 'do': 'raise_base',
+                                 'exc': 'KeyboardInterrupt'})
+            t['actions'].append({'ph': 'body', 'do': 'probe_streams'})
+            tests.append(t)
+            nodes.append({'t': 'class', 'name': 'TestTop%02dk' % i,
+                          'tests': [t], 'layer': 'Top'})
+            cls_of[i] = nodes[-1]['name']
+            continue
         if kind == 'subtests':
             t['subs'] = rng.choice([['F'], ['P', 'E'], ['F', 'E'],
                                     ['P', 'F', 'P'], ['S', 'F'], ['F', 'S'],
@@ -182,9 +208,15 @@ def run_case(case):
         import vworld as _vw
         xdir = _vw.scratch_dir('c13xml-')
         xargv = ['--xml', xdir]
+    stdin = None
+    if case.get('pm'):
+        from checks.c18 import ScriptedStdin
+        stdin = ScriptedStdin()
+        xargv = xargv + ['-D']
     try:
         w = common.run_world(spec, None, opts, extra_argv=xargv,
-                             mode='cli' if case['cli'] else 'in')
+                             mode='cli' if case['cli'] else 'in',
+                             stdin=stdin)
     finally:
         if xml:
             _vw.destroy(xdir)
@@ -199,7 +231,24 @@ def run_case(case):
         if len(viol) < 6:
             viol.append({'rule': rule, 'mech': mech, 'detail': d})
 
-    if w.raised is not None:
+    kbint = case['seq'][-1].startswith('kbint_')
+    if kbint:
+        C('interrupted_runs')
+        if case.get('pm'):
+            C('interrupted_runs_post_mortem')
+        if isinstance(w.raised, KeyboardInterrupt):
+            C('interrupts_that_reached_the_caller')
+            if case.get('pm'):
+                C('interrupts_that_reached_the_caller_post_mortem')
+            if w.r.streams_restored != (True, True):
+                V('streams-not-original-after-run',
+                  'buffer-not-restored-after-interrupt',
+                  restored=w.r.streams_restored, pm=case.get('pm'))
+        elif w.raised is not None:
+            V('run-aborted', 'run-raised', tb=(w.raised_tb or '')[-700:])
+        if w.raised is not None:
+            return {'viol': viol, 'evals': 1, 'counters': counters}
+    elif w.raised is not None:
         V('run-aborted', 'run-raised', tb=(w.raised_tb or '')[-700:])
         return {'viol': viol, 'evals': 1, 'counters': counters}
     text = w.out if case['cli'] else w.r.out
@@ -247,8 +296,11 @@ def run_case(case):
         if w.r.streams_restored != (True, True):
             V('streams-not-original-after-run',
               'buffer-not-restored-after-run', restored=w.r.streams_restored)
-    # ---------------- token attribution
-    if case['buffer']:
+    # ---------------- token attribution (a post-mortem run prints what
+    # the debugger session prints: identity only)
+    if case.get('pm'):
+        pass
+    elif case['buffer']:
         # positions of each test's first header / first token
         first_pos = {}
         for i, kind in enumerate(case['seq']):
